@@ -215,6 +215,8 @@ pub enum Event {
     Panic { site: String },
     Index { place: String, idx: String, site: String },
     Note(String),
+    /// `write!(f, fmt, args..)` inside a Display impl
+    Write { fmt: String, args: Vec<Val> },
 }
 
 #[derive(Clone)]
@@ -279,6 +281,8 @@ pub struct Ev<'a> {
     pub open_at_top: std::cell::RefCell<Option<String>>,
     /// elements of summarised collections whose struct type owns a Vec: spell the element out with that Vec unrolled to n
     pub inner_unroll: Option<usize>,
+    /// functions replaced by a fixed result
+    pub stop_vals: std::collections::HashMap<String, Val>,
 }
 
 fn then(outs: Outs, mut f: impl FnMut(St, Val) -> Outs) -> Outs {
@@ -298,7 +302,7 @@ fn path_str(p: &syn::Path) -> Vec<String> {
 
 impl<'a> Ev<'a> {
     pub fn new(ix: &'a Index) -> Self {
-        Ev { ix, cur_file: Default::default(), unsupported: Default::default(), push_fns: vec![], stops: vec![], max_depth: 12, open_at_top: Default::default(), inner_unroll: None }
+        Ev { ix, cur_file: Default::default(), unsupported: Default::default(), push_fns: vec![], stops: vec![], max_depth: 12, open_at_top: Default::default(), inner_unroll: None, stop_vals: Default::default() }
     }
     fn site(&self, sp: proc_macro2::Span) -> String {
         format!("{}:{}", self.cur_file.borrow(), sp.start().line)
@@ -372,6 +376,9 @@ impl<'a> Ev<'a> {
             Val::Bool(true) => Some(F::T),
             Val::Bool(false) => Some(F::Fl),
             Val::Atom(f) => Some(f),
+            Val::Opaque { ref what, .. } if what.starts_with("call ") || what.starts_with(".is_") || what.starts_with(".contains") || what.starts_with(".peek") || what.starts_with(".ends_with") || what.starts_with(".starts_with") => {
+                Some(F::A(self.deref(st, v).short().chars().take(120).collect()))
+            }
             _ => None,
         }
     }
@@ -388,6 +395,7 @@ impl<'a> Ev<'a> {
             let recv = self_val.as_ref().map(|v| self.deref(&st, v).short()).unwrap_or_default();
             st.events.push(Event::Push { place, site, func: f.qual.clone(), recv });
         }
+        if let Some(v) = self.stop_vals.get(&f.qual) { return vec![(st, Flow::Val(v.clone()))]; }
         let opened = st.depth == 0 && self.open_at_top.borrow().as_deref() == Some(f.qual.as_str());
         if let Some((_, kind)) = self.stops.iter().find(|(n, _)| n == &f.qual && !opened) {
             let name = format!("{}({})", f.sig.ident, args.iter().map(|a| a.short()).collect::<Vec<_>>().join(","));
@@ -559,6 +567,7 @@ impl<'a> Ev<'a> {
             syn::Pat::Tuple(t) => {
                 let vs = match &v {
                     Val::Tuple(vs) if vs.len() == t.elems.len() => vs.clone(),
+                    Val::Sym { ty: Ty::Tuple(ts), path } if ts.len() == t.elems.len() => ts.iter().enumerate().map(|(i, ct)| if ct.name() == Some("bool") { Val::Atom(F::A(format!("{path}.{i}"))) } else { Val::Sym { ty: ct.clone(), path: format!("{path}.{i}") } }).collect(),
                     _ => (0..t.elems.len()).map(|i| Val::opaque(format!("tuple.{i}"), vec![v.clone()])).collect(),
                 };
                 for (pp, vv) in t.elems.iter().zip(vs) {
@@ -1205,6 +1214,9 @@ impl<'a> Ev<'a> {
                         let f = match (&l, &r) {
                             (Val::Int(a), Val::Int(b)) => if a == b { F::T } else { F::Fl },
                             (Val::Bool(a), Val::Bool(b)) => if a == b { F::T } else { F::Fl },
+                            (Val::Bool(a), Val::Atom(f)) | (Val::Atom(f), Val::Bool(a)) => if *a { f.clone() } else { F::Not(Box::new(f.clone())) },
+                            (Val::Atom(f), Val::Atom(g)) => F::Or(vec![F::And(vec![f.clone(), g.clone()]), F::And(vec![F::Not(Box::new(f.clone())), F::Not(Box::new(g.clone()))])]),
+                            (Val::Sym { ty, path }, Val::Enum { var, args, .. }) | (Val::Enum { var, args, .. }, Val::Sym { ty, path }) if args.is_empty() && ty.name().map(|n| self.ix.enums.contains_key(n)).unwrap_or(false) => F::A(format!("{path} is {var}")),
                             (Val::Str(a), Val::Str(b)) => if a == b { F::T } else { F::Fl },
                             (Val::Enum { var: a, args: aa, .. }, Val::Enum { var: b, args: ba, .. }) if aa.is_empty() && ba.is_empty() => if a == b { F::T } else { F::Fl },
                             (Val::Tuple(a), Val::Tuple(b)) if a.len() == b.len() && a.iter().chain(b.iter()).all(|x| matches!(x, Val::Bool(_))) => {
@@ -1556,6 +1568,36 @@ impl<'a> Ev<'a> {
             _ => None,
         }
     }
+    /// the text a crate value displays as, if its Display impl can be evaluated to constants
+    pub fn display_string(&self, v: &Val) -> Option<String> {
+        match v {
+            Val::Str(s) => Some(s.clone()),
+            Val::Int(i) => Some(i.to_string()),
+            Val::Enum { ty, .. } | Val::Struct { name: ty, .. } => {
+                let tyn = ty.split("::").next().unwrap_or(ty);
+                let f = self.ix.fns.get(&format!("{tyn}::fmt"))?.iter().find(|f| f.is_trait_impl.as_deref() == Some("Display"))?.clone();
+                let outs = self.call_fn(St::new(), &f, Some(v.clone()), vec![Val::Sym { ty: Ty::Named("Formatter".into(), vec![]), path: "f".into() }]);
+                if outs.len() != 1 { return None; }
+                let mut out = String::new();
+                for e in &outs[0].0.events {
+                    if let Event::Write { fmt, args } = e {
+                        let mut ai = args.iter();
+                        let mut rest = fmt.as_str();
+                        while let Some(i) = rest.find('{') {
+                            out.push_str(&rest[..i]);
+                            let tail = &rest[i + 1..];
+                            let j = tail.find('}')?;
+                            out.push_str(&self.display_string(ai.next()?)?);
+                            rest = &tail[j + 1..];
+                        }
+                        out.push_str(rest);
+                    }
+                }
+                Some(out)
+            }
+            _ => None,
+        }
+    }
     /// value of `<T as Default>::default()` for the field types the generator uses
     fn default_val(&self, t: &syn::Type) -> Val {
         let ty = Ty::from_syn(t);
@@ -1657,6 +1699,8 @@ impl<'a> Ev<'a> {
             ("ends_with", Val::Str(x)) if matches!(args.first(), Some(Val::Str(_))) => { let Some(Val::Str(sfx)) = args.first() else { unreachable!() }; Val::Bool(x.ends_with(sfx.as_str())) }
             ("starts_with", Val::Str(x)) if matches!(args.first(), Some(Val::Str(_))) => { let Some(Val::Str(sfx)) = args.first() else { unreachable!() }; Val::Bool(x.starts_with(sfx.as_str())) }
             ("to_string" | "to_owned" | "as_str", Val::Str(_)) => rv.clone(),
+            ("fmt", Val::Str(x)) => { st.events.push(Event::Write { fmt: "{}".into(), args: vec![Val::Str(x.clone())] }); Val::ok(Val::Unit) }
+            ("to_string", Val::Struct { .. }) | ("to_string", Val::Enum { .. }) if self.display_string(&rv).is_some() => Val::Str(self.display_string(&rv).unwrap()),
             ("rev", Val::Array(vs)) => Val::Array(vs.iter().rev().cloned().collect()),
             ("any" | "all", Val::Array(vs)) if matches!(args.first(), Some(Val::Closure(_))) => {
                 // short-circuit fold, path-sensitively
@@ -1778,7 +1822,36 @@ impl<'a> Ev<'a> {
                 let site = self.site(sp);
                 vec![(st, Flow::Ret(Val::err(Val::Str(format!("bail@{site}")))))]
             }
-            "format" | "format_ident" | "write" | "stringify" => {
+            "write" => {
+                use syn::punctuated::Punctuated;
+                let parsed = syn::parse::Parser::parse2(Punctuated::<syn::Expr, syn::Token![,]>::parse_terminated, mac.tokens.clone());
+                let Ok(exprs) = parsed else { self.unsup("write! arguments", sp); return vec![] };
+                let es: Vec<&syn::Expr> = exprs.iter().skip(1).collect();
+                let mut r = Vec::new();
+                for (mut s2, a) in self.eval_args(st, &es) {
+                    match a {
+                        Ok(mut vs) => {
+                            let fmt = match vs.first() { Some(Val::Str(f)) => f.clone(), _ => String::new() };
+                            if !vs.is_empty() { vs.remove(0); }
+                            // inline `{name}` captures
+                            let mut rest = fmt.as_str();
+                            while let Some(i) = rest.find('{') {
+                                let tail = &rest[i + 1..];
+                                if let Some(j) = tail.find('}') {
+                                    let nm = &tail[..j];
+                                    if !nm.is_empty() && nm.chars().all(|c| c.is_alphanumeric() || c == '_') { if let Some(v) = s2.lookup(nm) { vs.push(self.deref(&s2, &v)); } }
+                                    rest = &tail[j + 1..];
+                                } else { break; }
+                            }
+                            s2.events.push(Event::Write { fmt, args: vs });
+                            r.push((s2, Flow::Val(Val::ok(Val::Unit))));
+                        }
+                        Err(fl) => r.push((s2, fl)),
+                    }
+                }
+                r
+            }
+            "format" | "format_ident" | "stringify" => {
                 use syn::punctuated::Punctuated;
                 let parsed = syn::parse::Parser::parse2(Punctuated::<syn::Expr, syn::Token![,]>::parse_terminated, mac.tokens.clone());
                 match parsed {
